@@ -1735,6 +1735,7 @@ func init() {
 	eng.DecidedByEvaluation["R5.1-FILTER-NAMES"] = []string{"R5.22-ASCII-CHAINS-EVALUATED"}
 	eng.DecidedByEvaluation["R5.2-CHAIN-ORDER"] = []string{"R5.22-ASCII-CHAINS-EVALUATED"}
 	eng.DecidedByEvaluation["R5.9-FILTER-PARMS-PARALLEL"] = []string{"R5.22-ASCII-CHAINS-EVALUATED"}
+	eng.DecidedByEvaluation["R1.8-FILTER-PARMS-PARALLEL"] = []string{"R5.22-ASCII-CHAINS-EVALUATED"}
 }
 
 // ---------------------------------------------------------------------------------------------------------------
